@@ -311,6 +311,15 @@ def run(ctx):
                             from_param = any(n[0] == "field" and n[2] == "parameters" for n in ns) and any(n[0] == "as" and n[2] == "Number" for n in ns)
                             verdict = "ok" if from_param and not arith else "VIOLATION"
                             detail_ = [str(n[:2])[:60] for n in arith][:3]
+                            # ... and what the lookup yields IS the table function's result, for every angle: no branch
+                            # in the closure, its return value is the call through the table's function pointer
+                            branches = [b3 for b3 in hh.blocks if b3["t"]["k"] == "switch"]
+                            ret_ = _op(hh, {"m": {"l": 0, "pr": []}})
+                            key2 = "K5|table-result-unconditional"
+                            ok2 = not branches and ret_[0] == "callv"
+                            res.site(key2, True, {"branches_in_lookup_closure": len(branches), "returns_table_call": ret_[0] == "callv", "verdict": "ok" if ok2 else "VIOLATION"})
+                            if not ok2:
+                                res.find(key2, hh.loc(), "gate_matrix does not return the table function's result for every parameter value (a special case for some angle replaces it)", "PSWAP(0) comes back as the identity instead of SWAP")
     res.site(key, True, {"verdict": verdict})
     if verdict == "VIOLATION":
         res.find(key, gmx[0].loc(), "gate_matrix transforms the gate's parameter before handing it to the gate's matrix function (%s)" % detail_, "RX(2*pi) 0 comes back as +I instead of -I (half-angle gates have period 4*pi)")
